@@ -53,11 +53,6 @@ class VectorField:
         self._coordinate_system = coordinate_system
 
     def __call__(self, point_: Point) -> Vector:
-        if not callable(self._point_function):
-            # stored components can be written in base scalars of the field coordinate system, eg [-C.y, C.x],
-            # field operators read them as functions of the point, so should applying the field
-            components = _subs_with_point(self._point_function, self._coordinate_system, point_)
-            return Vector(components, self._coordinate_system)
         # Point with general Point type is not checked against coordinate system.
         # It's up to user to make sure that field function works with general Point type.
         if isinstance(
@@ -75,6 +70,11 @@ class VectorField:
         ) and self._coordinate_system.coord_system_type != CoordinateSystem.System.CYLINDRICAL:
             raise ValueError(
                 f"Unsupported coordinate system for CylinderPoint: {self._coordinate_system}")
+        if not callable(self._point_function):
+            # stored components can be written in base scalars of the field coordinate system, eg [-C.y, C.x],
+            # field operators read them as functions of the point, so should applying the field
+            components = _subs_with_point(self._point_function, self._coordinate_system, point_)
+            return Vector(components, self._coordinate_system)
         result = self._point_function(point_)
         return Vector(result, self._coordinate_system)
 
